@@ -142,6 +142,60 @@ func H_C14_act() {
 	vrt.Reach("done")
 }
 
+// H_C14_reuse: one activation object applied to two inputs of independently chosen shapes.
+func H_C14_reuse() {
+	name := vrt.SParam("act")
+	fwd, sp, ok := buildAct(name, 1)
+	if !ok {
+		return
+	}
+	for call := 0; call < 2; call++ {
+		r := vrt.Concretize(vrt.Int(vrt.Nm("rank", call), 1, vrt.Param("maxrank")))
+		dims := symDims(vrt.Nm("d", call), r, vrt.Param("maxdim"))
+		concDims(dims)
+		x, xe := mk(vrt.Nm("x", call), dims, vrt.Bool(vrt.Nm("tr", call)))
+		y, err := fwd(x)
+		vrt.Assert("valid input accepted on every call of a reused activation", err == nil)
+		if err != nil || y == nil {
+			return
+		}
+		if !sameDims(vrt.Dims(y), dims) {
+			vrt.Assert("activation keeps the input's shape", false)
+			return
+		}
+		f := vrt.Flat(y)
+		switch name {
+		case "Relu":
+			for k, v := range xe {
+				vrt.AssertEqF("Relu (reused)", f[k], vrt.IteF(v > 0, v, 0))
+			}
+		case "LeakyRelu":
+			for k, v := range xe {
+				vrt.AssertEqF("LeakyRelu (reused)", f[k], vrt.IteF(v > 0, v, 0)+sp.m*vrt.IteF(v < 0, v, 0))
+			}
+		case "Sigmoid":
+			for k, v := range xe {
+				vrt.AssertEqF("Sigmoid (reused)", f[k], 1/(1+math.Exp(-v)))
+			}
+		case "Tanh":
+			for k, v := range xe {
+				vrt.AssertEqF("Tanh (reused)", f[k], math.Tanh(v))
+			}
+		case "Softmax":
+			for _, fib := range fibresAlong(dims, sp.dim) {
+				s := 0.
+				for _, k := range fib {
+					s += math.Exp(xe[k])
+				}
+				for _, k := range fib {
+					vrt.AssertEqF("Softmax (reused)", f[k], math.Exp(xe[k])/s)
+				}
+			}
+		}
+	}
+	vrt.Reach("done")
+}
+
 func zeroOrFar(v float64) {
 	vrt.Assume(vrt.Or(v == 0, vrt.Or(v > 1e-200, v < -1e-200)))
 }
